@@ -86,6 +86,12 @@ pub fn alphabet(base: &Pset, base_name: &str, reduced: bool) -> Vec<Upd> {
         if base_name.ends_with("commitments-only") {
             a.push(Upd::Out(j, "amount".into(), 0));
             a.push(Upd::Out(j, "asset".into(), 0));
+        } else if base.outputs()[j].blinding_key.is_none() {
+            // an updater marks the output for blinding (receiver key + blinder index)
+            a.push(Upd::Out(j, "mark-for-blinding".into(), 0));
+            if !reduced {
+                a.push(Upd::Out(j, "mark-for-blinding".into(), 1));
+            }
         }
     }
     for f in global_fields() {
